@@ -39,6 +39,10 @@ type Case struct {
 	Runs    []RunSpec `json:"runs"`
 	ParaRTL bool      `json:"para_rtl"`
 	ParaVer bool      `json:"para_vertical,omitempty"`
+	// orientation flags of vertical directions (di.Direction.SetSideways): 0 unset, 1 upright,
+	// 2 sideways, for the paragraph; for the runs also 3 = alternating, as Split resolves them
+	ParaOrient uint8 `json:"para_orientation,omitempty"`
+	RunOrient  uint8 `json:"run_orientation,omitempty"`
 
 	Policy        int  `json:"policy"` // 0 WhenNecessary, 1 Never, 2 Always
 	TruncateAfter int  `json:"truncate_after"`
@@ -82,6 +86,9 @@ func (c *Case) paraDir() di.Direction {
 	if c.ParaRTL {
 		d.SetProgression(di.TowardTopLeft)
 	}
+	if c.ParaVer && c.ParaOrient != 0 {
+		d.SetSideways(c.ParaOrient == 2)
+	}
 	return d
 }
 
@@ -92,6 +99,15 @@ func runDir(rs RunSpec) di.Direction {
 	}
 	if rs.Level%2 == 1 {
 		d.SetProgression(di.TowardTopLeft)
+	}
+	return d
+}
+
+// runDirAt is runDir with the orientation flags of the case.
+func (c *Case) runDirAt(i int) di.Direction {
+	d := runDir(c.Runs[i])
+	if c.Runs[i].Vertical && c.RunOrient != 0 {
+		d.SetSideways(c.RunOrient == 2 || (c.RunOrient == 3 && i%2 == 0))
 	}
 	return d
 }
@@ -127,7 +143,7 @@ func (c *Case) BuildRuns() []shaping.Output {
 	for i, rs := range c.Runs {
 		o := shaping.Output{
 			Size:      runSize,
-			Direction: runDir(rs),
+			Direction: c.runDirAt(i),
 			Runes:     shaping.Range{Offset: rs.Offset, Count: rs.Count},
 			Glyphs:    make([]shaping.Glyph, len(rs.Glyphs)),
 		}
